@@ -445,6 +445,32 @@ PROPS['C18'] = dict(
 )
 
 
+PROPS['C15'] = dict(
+    level='proof',
+    level_text=('PARTIAL: unbounded deductive proofs (Verus/Z3) of the all-or-nothing structure of live reload, on text cut from src/kanata/mod.rs each run (configuration: target_os = "linux", cargo features tcp_server / zippychord / gui OFF - the '
+                'notification and zippychord statements are #[cfg]-gated and dropped, rewrite R6): (1) Kanata::do_live_reload, whole: if the file does not parse (or the output device rejects the new options) NOTHING of the running '
+                'configuration or state is touched; if it returns Ok every configuration-derived field (layout, key outputs, layer info, sequences, overrides, mapped keys, the defcfg-derived options) comes from the newly parsed '
+                'configuration, the layer shown is the new layout\'s current layer and the macro cancel window is closed; (2) the deferral statement of handle_time_ticks: a requested reload is attempted exactly when no output key is down '
+                '(previous and current key lists empty) or kanata has been idle for more than 1000 ticks; the request is consumed by the attempt; a failed attempt leaves everything but the request flag as it was. '
+                'NOT decided: "then behaves exactly like a freshly started instance" (relational, over histories), the client notifications (feature-gated code), the choice of file (lrld-next/prev/num), what new_from_file accepts.'),
+    level_note=('Trusted: rustc, Verus+Z3, extractor (R6 cfg resolution, R7 slicing of Kanata / Cfg / CfgOptions / CfgLinuxOptions to the fields the function moves, opaque payload types). Assumed stubs: cfg::new_from_file = a function of the path (parse_of), '
+                'update_kbd_out, get_forced_log_layer_changes, Kanata::set_repeat_rate, print_layer, Layout::current_layer; `*MAPPED_KEYS.lock() = v` recorded in a ghost field (R25); bail! -> return Err (R13); bm() read-only (R18).'),
+    technique='contract-based deductive verification (Verus): frame postcondition `*final(self) == *old(self)` on the failure paths, field-by-field postcondition on success, one statement-level fragment for the deferral test',
+    design_ref='DESIGN.md section 9.1b (C15)',
+    explanation=('Unit reload. do_live_reload: (parse_of(path) is Err || !kbd_out_ok(options)) ==> r is Err && *final(self) == *old(self); parse Ok && devices accept ==> r is Ok; r is Ok ==> fields == parsed cfg\'s, prev_layer == new layout\'s current layer, macro_on_press_cancel_duration == 0, file list / index / key lists kept. '
+                 'reload_when_quiet (fragment): due := requested && ((prev_keys empty && cur_keys empty) || ticks_since_idle > 1000); !due ==> unchanged; due ==> request consumed; due && parse fails ==> only the flag changed.'),
+    verus=[dict(unit='reload')],
+    kani=[],
+    assumptions=[
+        'verified for the feature set {} (no tcp_server, zippychord, gui): the ConfigFileReload / LayerChange notifications and zch_configure are #[cfg]-gated statements, dropped and logged (R6); the default build has tcp_server and zippychord ON - their statements sit after the assignments and cannot undo the failure-half, but "clients are notified" is NOT decided',
+        'OBSERVATION (outside the property\'s fault model, which is about the file): if the file parses but Kanata::set_repeat_rate fails (linux-x11-repeat-delay-rate configured and the helper fails), do_live_reload returns Err AFTER the new configuration has been assigned: prev_layer is not updated and nothing is printed or notified. The contract states the failure-half for parse / device-option failures only',
+        'only the fields kept by the slicing are covered by `*final(self) == *old(self)`; a field that is dropped cannot be named by the extracted text at all (Verus would reject it), so it is unchanged by construction',
+        'NOT decided: "behaves exactly like a freshly started instance" (relational), the file index selection (lrld-next/prev/num), reload requests repeated back-to-back beyond what the per-call contract gives, the parser',
+    ],
+    trusted_base=['rustc', 'Verus 0.2026.09.13 / Z3', 'extractor lib/rustcut.py + lib/verusgen.py (rewrites logged in rewrites_applied)'],
+)
+
+
 def find_harness(name):
     for p in PROPS.values():
         for h in p.get('kani', []):
